@@ -174,6 +174,15 @@ class SymArr:
     def __getitem__(self, i):
         return lift(lambda v: v[i], self)
 
+    def __getattr__(self, name):
+        # any other array method / property (min, max, mean, flatten, T, ...) is lifted through the real jax array attribute
+        if name.startswith("_"):
+            raise AttributeError(name)
+        probe = getattr(jnp.zeros(self.shape, self.dtype), name)  # raises AttributeError exactly when a real array would
+        if callable(probe):
+            return lambda *a, **k: lift(lambda v: getattr(v, name)(*a, **k), self)
+        return lift(lambda v: getattr(v, name), self)
+
     def __array__(self, dtype=None, copy=None):
         """numpy sees an object array of scalar proxies (np.array_equal & co. then fork per element)"""
         out = np.empty(self.shape, dtype=object)
